@@ -30,6 +30,11 @@ const MAXIMUM_TOKEN_LENGTH: usize = 8;
 /// to the total size.
 const BLOCK_OPTIONS_MAX_LENGTH: usize = 12;
 
+/// Largest block size that can be proposed to a peer (RFC 7959 section 2.2:
+/// SZX 6).  A size budget that leaves more room than this still means blocks
+/// of this size, not a failure to encode the block option.
+const MAXIMUM_BLOCK_SIZE: usize = 1024;
+
 /// Maximum amount we're willing to extend a client cached payload without the
 /// client committing to having to send us the bytes.  This prevents a common
 /// denial of service (DoS) attack where the client claims that they want to
@@ -434,7 +439,7 @@ impl<Endpoint: Ord + Clone> BlockHandler<Endpoint> {
                     Some(BlockValue::new(
                         0,
                         true, /* more */
-                        max_block_size,
+                        min(max_block_size, MAXIMUM_BLOCK_SIZE),
                     ))
                 }
             }
